@@ -63,6 +63,24 @@ fn hmap(doc: &MVal) -> Option<HashMap<String, HVal>> {
 }
 
 /// Verdict through typed std containers when the (flat) document fits one; the label says which.
+/// Does the value the adapter hands to the engine carry the model's numeric value and signedness?
+fn same_value(model: &MVal, got: &Value<'_>) -> bool {
+    match (model, got) {
+        (MVal::Null, Value::Null) => true,
+        (MVal::Bool(a), Value::Bool(b)) => a == b,
+        (MVal::Int(a), Value::Int(b)) => a == b,
+        (MVal::UInt(a), Value::UInt(b)) => a == b,
+        (MVal::Float(a), Value::Float(b)) => a.0.to_bits() == b.to_bits() || (a.0.is_nan() && b.is_nan()) || ((a.0 as f32) as f64 == *b),
+        (MVal::Str(a), Value::String(b)) => a == b,
+        (MVal::Arr(a), Value::Array(b)) => {
+            let items: Vec<Value<'_>> = b.iter().collect();
+            // order may differ for set-backed arrays: compare as multisets
+            items.len() == a.len() && a.iter().all(|m| items.iter().any(|g| same_value(m, g)))
+        }
+        _ => false,
+    }
+}
+
 fn typed_verdicts(rule: &Rule, doc: &MVal, allow_sets: bool) -> Vec<(String, Result<bool, PanicInfo>)> {
     let mut out = vec![];
     let fields = match doc.fields() {
@@ -75,6 +93,12 @@ fn typed_verdicts(rule: &Rule, doc: &MVal, allow_sets: bool) -> Vec<(String, Res
             let vals: Option<Vec<(String, $ty)>> = fields.iter().map(|(k, v)| conv(v).map(|x: $ty| (k.clone(), x))).collect();
             if let Some(vals) = vals {
                 let m: HashMap<String, $ty> = vals.into_iter().collect();
+                for (k, v) in fields {
+                    let ok = tau_engine::Object::get(&m, k).map(|g| same_value(v, &g)).unwrap_or(false);
+                    if !ok {
+                        out.push((format!("ADAPTER {} key {} model {}", $label, k, v.show()), Ok(false)));
+                    }
+                }
                 out.push(($label.to_owned(), matches_doc(rule, &m)));
             }
         }};
@@ -416,6 +440,17 @@ pub fn execute(sc: &Scenario) -> Outcome {
                             })
                         };
                         for (label, v) in typed_verdicts(&r, doc, all_perms_ok) {
+                            if label.starts_with("ADAPTER ") {
+                                push_violation(
+                                    &mut vs,
+                                    Violation::new(
+                                        "adapter_changes_value_or_signedness",
+                                        label.split(' ').nth(1).unwrap_or("").to_owned(),
+                                        format!("{}: Object::get returns a value of another kind, numeric value or signedness than the Rust value put in", label),
+                                    ),
+                                );
+                                continue;
+                            }
                             stats.inc("typed_container_documents");
                             note(&label, v, &mut stats);
                         }
